@@ -29,6 +29,7 @@ THEOREMS = [
     'Nb.C19.annot_zero_rgb_general',
     'Nb.C19.annot_zero_rgb_witness',
     'Nb.C19.annot_zero_vertices_orig_counterexample',
+    'Nb.C19.annot_narrow_ctab_orig_counterexample',
     'Nb.C19.annot_empty_ctab_unlabeled_witness',
     'Nb.C19.mgh_shape_roundtrip',
     'Nb.C19.mgh_single_frame_4d_limit',
@@ -81,12 +82,6 @@ PENDING_FINDINGS = [
      'what': 'write_annot with a colour table of zero entries and >=1 (unlabeled, -1) vertices raises IndexError '
              '(ctab[:, -1][labels] indexes an empty column before the -1 labels are replaced by 0)',
      'input': {'op': 'annot', 'orig': False, 'fill': True, 'ncol': 4, 'labels': [-1], 'ctab': [], 'names': []}},
-    {'property': 'C19', 'signature': 'annot:narrow-ctab-dtype', 'status': 'open',
-     'what': 'write_annot(fill_ctab=True) with a colour table of an integer dtype narrower than 32 bits (e.g. uint8) '
-             'writes wrong annotation values (_pack_rgb computes the shifts 2**8, 2**16 in the table dtype, where they '
-             'overflow): labels read back wrong, silently',
-     'input': {'op': 'annot', 'orig': False, 'fill': True, 'ncol': 4, 'labels': [1], 'dt_t': 'u1',
-               'ctab': [[10, 200, 30, 0], [255, 255, 255, 7]], 'names': ['a', 'b']}},
 ]
 
 GEN_PATH = os.path.join(LEAN, 'NibabelModel', 'Generated', 'C19.lean')
@@ -345,8 +340,6 @@ def mk_annot(d, stream='annot'):
     names = ';'.join((n.encode('utf-8').hex() or '_') for n in d['names']) if d['names'] else '-'
     line = (f"C19 annot {int(d['orig'])} {int(d['fill'])} {int(d['ncol'] == 5)} {commas(d['labels'])} "
             f"{rows} {names}")
-    if d.get('dt_t', 'i8') in NARROW:
-        line = None          # _pack_rgb computes in the table's dtype: not modelled (open finding), oracle only
     return Case(line, d, ('annot', _h(d)) if d['labels'] else None, stream)
 
 
@@ -710,9 +703,6 @@ def oracle_annot(case, out):
         if got == limit:
             return ('[zero-packed] label referring to a colour-table entry packed to 0 read back as -1: '
                     f'labels {want[:8]} -> {got[:8]}')
-        if d.get('dt_t', 'i8') in NARROW and d['fill']:
-            return (f'[narrow-ctab] labels differ after round trip with a {d["dt_t"]} colour table: '
-                    f'got {got[:8]} want {want[:8]}')
         return f'labels differ after round trip: got {got[:8]} want {want[:8]}'
     return None
 
@@ -832,8 +822,6 @@ def signature(case, what):
         n = len(d['ctab'])
         if what.startswith('[zero-packed]') and any(l >= 0 and l < n and pack(d['ctab'][l]) == 0 for l in d['labels']):
             return 'annot:zero-packed-rgb-referenced'
-        if what.startswith('[narrow-ctab]') and d.get('dt_t') in NARROW and d['fill']:
-            return 'annot:narrow-ctab-dtype'
         if what.startswith('[empty-ctab]') and n == 0 and d['labels'] and all(l == -1 for l in d['labels']):
             return 'annot:empty-ctab-unlabeled-vertices'
         return 'annot:other'
@@ -849,8 +837,6 @@ def in_known_class(d):
     if d['op'] == 'annot':
         n = len(d['ctab'])
         if n == 0 and d['labels']:
-            return True
-        if d.get('dt_t', 'i8') in NARROW:
             return True
         return any(0 <= l < n and pack(d['ctab'][l]) == 0 for l in d['labels'])
     if d['op'] == 'mgh':
@@ -875,7 +861,7 @@ def _shrink_candidates(case):
         if d.get(k, 'C') != 'C':
             yield MK[op]({**d, k: 'C'}, case.stream)
     for k, v in (('dt_c', 'f8'), ('dt_f', 'i8'), ('dt_l', 'i8'), ('dt_t', 'i8')):
-        if d.get(k, v) != v and not (k == 'dt_t' and d[k] in NARROW):
+        if d.get(k, v) != v and True:
             yield MK[op]({**d, k: v}, case.stream)
     if op == 'annot':
         if len(d['labels']) > 1:
@@ -1093,10 +1079,11 @@ def gen_annot(rng, zero_p=0.08, big=False, narrow=False):
     dt_t = rng.choice(['i8', 'i8', 'i4', 'u4', 'f8'])
     if dt_t == 'u4' and any(v < 0 for v in flat):
         dt_t = 'i8'
-    if narrow:
+    if narrow or (fill and ncol == 4 and rng.random() < 0.3):
+        # tables of a narrow integer dtype (uint8 RGBA is the natural one); pre-fix `_pack_rgb` overflowed there
         fill, ncol, ctab = True, 4, [r[:4] for r in ctab]
         dt_t = rng.choice(['u1', 'u1', 'i2', 'u2'])
-    return {'op': 'annot', 'orig': rng.random() < 0.15 and not narrow, 'fill': fill, 'ncol': ncol, 'labels': labels,
+    return {'op': 'annot', 'orig': rng.random() < 0.15, 'fill': fill, 'ncol': ncol, 'labels': labels,
             'ctab': ctab, 'names': names, 'lay_l': rng.choice(LAY_W), 'lay_t': rng.choice(LAY_W),
             'dt_l': int_dt(rng, labels + [len(ctab)], ('i8', 'i8', 'i4', 'i2', 'i1')), 'dt_t': dt_t}
 
